@@ -8,7 +8,7 @@ BASE = dict(
     OP='"Send"', N='2', MAXR='2', BUDGET='2',
     CAPSETS='{%s, {}}' % ALLCAPS,
     RENDERKINDS='{}', ENC8='{FALSE}', DSNS='{"off"}', NONOOP='{FALSE}',
-    SHAPES='{"lead"}', CLASSES='{"t4", "p5", "drop"}',
+    SHAPES='{"lead"}', CLASSES='{"t4", "p5", "drop"}', CODESETS='{51}',
     DEV_ImplicitDot='FALSE', DEV_NoRsetAfterDataReject='FALSE', DEV_ContinueAfterRsetFail='FALSE',
     DEV_LeakOnDialError='FALSE', DEV_QuitFailureLeavesConn='FALSE')
 
@@ -25,15 +25,17 @@ INVS = ['NoViolation', 'TypeOK', 'Terminates', 'Emit']
 STAGES = {
     'C03': {
         'quick': [
-            ('send-2x2-b2-render', 'Session', cfg(RENDERKINDS='{"failMid"}', CAPSETS='{%s}' % ALLCAPS)),
-            ('send-2x1-b1-allrender', 'Session', cfg(MAXR='1', BUDGET='1', RENDERKINDS='{"fail0", "failMid", "failAtt"}',
-                                                      CAPSETS='{{}}')),
+            ('send-2x2-b2-render', 'Session', cfg(RENDERKINDS='{"failMid"}', CAPSETS='{%s}' % ALLCAPS,
+                                                   CLASSES='{"t4", "p5", "drop", "x3"}')),
+            ('send-2x1-b1-allrender', 'Session', cfg(MAXR='1', BUDGET='1', CAPSETS='{{}}',
+                                                      RENDERKINDS='{"fail0", "failMid", "failEOF", "failAtt", "failAttEOF"}')),
             ('dialandsend-2x1-b1', 'Session', cfg(OP='"DialAndSend"', MAXR='1', BUDGET='1', RENDERKINDS='{"failMid"}',
                                                   CAPSETS='{{}}')),
         ],
         'thorough': [
             ('send-3x2-b3-render', 'Session', cfg(N='3', BUDGET='3', RENDERKINDS='{"failMid"}', CAPSETS='{{}}')),
-            ('send-2x2-b2-allrender', 'Session', cfg(RENDERKINDS='{"fail0", "failMid", "failAtt"}', CAPSETS='{{}}')),
+            ('send-2x2-b2-allrender', 'Session', cfg(RENDERKINDS='{"fail0", "failMid", "failEOF", "failAtt", "failAttEOF"}',
+                                                      CAPSETS='{{}}', CLASSES='{"t4", "p5", "drop", "x3"}')),
             ('dialandsend-2x2-b2', 'Session', cfg(OP='"DialAndSend"', RENDERKINDS='{"failMid"}', CAPSETS='{{}}')),
         ],
     },
@@ -59,12 +61,16 @@ STAGES = {
         'quick': [
             ('send-2x2-b2-shapes', 'Session', cfg(SHAPES='{"lead", "later", "none"}', CLASSES='{"t4", "p5"}',
                                                    CAPSETS='{{"ENHANCEDSTATUSCODES"}, {}}')),
+            ('send-1x2-b2-boundary-codes', 'Session', cfg(N='1', CLASSES='{"t4", "p5"}', CODESETS='{0, 99, 21}',
+                                                           CAPSETS='{{"ENHANCEDSTATUSCODES"}}')),
         ],
         'thorough': [
             ('send-3x2-b3-shapes', 'Session', cfg(N='3', BUDGET='3', SHAPES='{"lead", "later", "none"}',
                                                    CLASSES='{"t4", "p5"}', CAPSETS='{{"ENHANCEDSTATUSCODES"}, {}}')),
             ('send-2x3-b3', 'Session', cfg(MAXR='3', BUDGET='3', SHAPES='{"lead", "later"}', CLASSES='{"t4", "p5"}',
                                             CAPSETS='{{"ENHANCEDSTATUSCODES"}}')),
+            ('send-1x2-b2-every-code', 'Session', cfg(N='1', CLASSES='{"t4", "p5"}', CODESETS='0..99',
+                                                       CAPSETS='{{"ENHANCEDSTATUSCODES"}}')),
         ],
     },
 }
